@@ -3,10 +3,9 @@ use cbor_event::de::Deserializer;
 use cbor_event::se::Serializer;
 use cbor_event::Serialize;
 use crate::{BootstrapWitnesses, CBORReadLen, DeserializeError, DeserializeFailure, Key, Language, NativeScripts, PlutusList, PlutusScripts, Redeemers, TransactionWitnessSet, Vkeywitnesses};
-use crate::protocol_types::{CBORSpecial, CBORType, Deserialize, opt64, TransactionWitnessSetRaw};
+use crate::protocol_types::{CBORSpecial, CBORType, Deserialize, TransactionWitnessSetRaw};
 use crate::serialization::utils::{deserilized_with_orig_bytes, merge_option_plutus_list};
 use crate::traits::NoneOrEmpty;
-use crate::utils::opt64_non_empty;
 
 impl cbor_event::se::Serialize for TransactionWitnessSet {
     fn serialize<'a, W: Write + Sized>(&self, serializer: &'a mut Serializer<W>) -> cbor_event::Result<&'a mut Serializer<W>> {
@@ -205,22 +204,48 @@ pub(super) fn serialize<'se, W: Write>(
     let mut has_plutus_v1 = false;
     let mut has_plutus_v2 = false;
     let mut has_plutus_v3 = false;
-    let plutus_added_length = match &wit_set.plutus_scripts {
-        Some(scripts) => {
-            has_plutus_v1 = scripts.has_version(&Language::new_plutus_v1());
-            has_plutus_v2 = scripts.has_version(&Language::new_plutus_v2());
-            has_plutus_v3 = scripts.has_version(&Language::new_plutus_v3());
-            (has_plutus_v1 as u64) + (has_plutus_v2 as u64) + (has_plutus_v3 as u64)
-        },
-        _ => 0,
-    };
+    if let Some(scripts) = &wit_set.plutus_scripts {
+        has_plutus_v1 = scripts.has_version(&Language::new_plutus_v1());
+        has_plutus_v2 = scripts.has_version(&Language::new_plutus_v2());
+        has_plutus_v3 = scripts.has_version(&Language::new_plutus_v3());
+    }
+    // A field is written when its original bytes are kept (raw part) or when it holds elements;
+    // the map length must count exactly the fields that are written below.
+    fn raw_of<'a>(
+        raw_parts: Option<&'a TransactionWitnessSetRaw>,
+        get: impl Fn(&'a TransactionWitnessSetRaw) -> Option<&'a Vec<u8>>,
+    ) -> Option<&'a Vec<u8>> {
+        raw_parts.map(get).flatten()
+    }
+    let raw_vkeys = raw_of(raw_parts, |x| x.vkeys.as_ref());
+    let raw_native_scripts = raw_of(raw_parts, |x| x.native_scripts.as_ref());
+    let raw_bootstraps = raw_of(raw_parts, |x| x.bootstraps.as_ref());
+    let raw_plutus_v1 = raw_of(raw_parts, |x| x.plutus_scripts_v1.as_ref());
+    let raw_plutus_v2 = raw_of(raw_parts, |x| x.plutus_scripts_v2.as_ref());
+    let raw_plutus_v3 = raw_of(raw_parts, |x| x.plutus_scripts_v3.as_ref());
+    let raw_plutus_data = raw_of(raw_parts, |x| x.plutus_data.as_ref());
+    let raw_redeemers = raw_of(raw_parts, |x| x.redeemers.as_ref());
+    let write_vkeys = wit_set.vkeys.is_some() && (raw_vkeys.is_some() || !wit_set.vkeys.is_none_or_empty());
+    let write_native_scripts = wit_set.native_scripts.is_some()
+        && (raw_native_scripts.is_some() || !wit_set.native_scripts.is_none_or_empty());
+    let write_bootstraps = wit_set.bootstraps.is_some()
+        && (raw_bootstraps.is_some() || !wit_set.bootstraps.is_none_or_empty());
+    let write_plutus_v1 = wit_set.plutus_scripts.is_some() && (raw_plutus_v1.is_some() || has_plutus_v1);
+    let write_plutus_v2 = wit_set.plutus_scripts.is_some() && (raw_plutus_v2.is_some() || has_plutus_v2);
+    let write_plutus_v3 = wit_set.plutus_scripts.is_some() && (raw_plutus_v3.is_some() || has_plutus_v3);
+    let write_plutus_data = wit_set.plutus_data.is_some()
+        && (raw_plutus_data.is_some() || !wit_set.plutus_data.is_none_or_empty());
+    let write_redeemers = wit_set.redeemers.is_some()
+        && (raw_redeemers.is_some() || !wit_set.redeemers.is_none_or_empty());
     serializer.write_map(cbor_event::Len::Len(
-        opt64(&wit_set.vkeys)
-            + opt64_non_empty(&wit_set.native_scripts)
-            + opt64_non_empty(&wit_set.bootstraps)
-            + opt64_non_empty(&wit_set.plutus_data)
-            + opt64_non_empty(&wit_set.redeemers)
-            + plutus_added_length,
+        write_vkeys as u64
+            + write_native_scripts as u64
+            + write_bootstraps as u64
+            + write_plutus_v1 as u64
+            + write_plutus_v2 as u64
+            + write_plutus_v3 as u64
+            + write_plutus_data as u64
+            + write_redeemers as u64,
     ))?;
     if let Some(field) = &wit_set.vkeys {
         if let Some(raw_vkeys) = raw_parts.map(|x| x.vkeys.as_ref()).flatten() {
@@ -253,8 +278,8 @@ pub(super) fn serialize<'se, W: Write>(
 
     //no need deduplication here because transaction witness set already has deduplicated plutus scripts
     if let Some(plutus_scripts) = &wit_set.plutus_scripts {
-        if has_plutus_v1 {
-            if let Some(raw) = raw_parts.as_ref().map(|x| x.plutus_scripts_v1.as_ref()).flatten() {
+        if write_plutus_v1 {
+            if let Some(raw) = raw_plutus_v1 {
                 serializer.write_unsigned_integer(3)?;
                 serializer.write_raw_bytes(raw)?;
             } else {
@@ -262,8 +287,8 @@ pub(super) fn serialize<'se, W: Write>(
                 plutus_scripts.serialize_as_set_by_version(false, &Language::new_plutus_v1(), serializer)?;
             }
         }
-        if has_plutus_v2 {
-            if let Some(raw) = raw_parts.as_ref().map(|x| x.plutus_scripts_v2.as_ref()).flatten() {
+        if write_plutus_v2 {
+            if let Some(raw) = raw_plutus_v2 {
                 serializer.write_unsigned_integer(6)?;
                 serializer.write_raw_bytes(raw)?;
             } else {
@@ -271,8 +296,8 @@ pub(super) fn serialize<'se, W: Write>(
                 plutus_scripts.serialize_as_set_by_version(false, &Language::new_plutus_v2(), serializer)?;
             }
         }
-        if has_plutus_v3 {
-            if let Some(raw) = raw_parts.as_ref().map(|x| x.plutus_scripts_v3.as_ref()).flatten() {
+        if write_plutus_v3 {
+            if let Some(raw) = raw_plutus_v3 {
                 serializer.write_unsigned_integer(7)?;
                 serializer.write_raw_bytes(raw)?;
             } else {
